@@ -417,6 +417,9 @@ func affineD(v ssa.Value, d int) (Affine, bool) {
 		if e, ok := phiEnv[x]; ok {
 			return affineD(e, d+1)
 		}
+		if e, ok := livePhiEdge(x); ok {
+			return affineD(e, d+1)
+		}
 		if isInduction(x) {
 			return affSym(inductionName(x.Block())), true
 		}
